@@ -320,8 +320,15 @@ def _ulp(*mags):
 
 KEY_RECOMP_PANOC = 'C05-recompute-reports-stale-psi-hat'
 KEY_RECOMP_ZEROFPR = 'C05-zerofpr-recompute-reports-mixed-stepsize'
-KEY_EAGER_YHAT = 'C06-panoc-eager-workspace-as-yhat'
-KEY_OWNER = {KEY_RECOMP_PANOC: 'C05', KEY_RECOMP_ZEROFPR: 'C05', KEY_EAGER_YHAT: 'C06'}
+KEY_OWNER = {KEY_RECOMP_PANOC: 'C05', KEY_RECOMP_ZEROFPR: 'C05'}
+# Repaired finding C06-panoc-eager-workspace-as-yhat (known-findings.json, fixes/C06-panoc-eager-yhat.diff): with
+# eager_gradient_eval PANOC used the m-workspace of eval_ψ_grad_ψ as ŷ(x̂).  The loop head now evaluates ŷ(x̂) where it
+# is read (Ipopt criterion, ∇ψ(x̂) recomputed after an interrupted line search); ε, ∇ψ(x̂) and — for the Ipopt
+# criterion — ŷ of every callback are demanded strictly.  What remains by design (documented in
+# PANOCProgressInfo::ŷ): with eager evaluation and a criterion that does not read ŷ, the callback's ŷ is the
+# workspace content; for a problem that uses the workspace as scratch (`wmscratch`) it is not compared
+# (counter `yhat_eager_workspace_by_design`; Props/C06_Panoc.eps_is_documented states ŷ = ŷ(x̂) only for
+# Ipopt, lazy evaluation, or written results).
 
 
 def consistency(flavor, op, cbs, **kw):
@@ -338,9 +345,7 @@ def _consistency(flavor, op, cbs, *, pid=None, bump=lambda k, n=1: None, rewritt
     """Exact consistency of every callback of a PANOC / ZeroFPR / PANTR / FISTA run (field names of
     `solvers.parse_out`).  Mismatches that are an *open finding* carry its key:
       rewritten[k] (callback k rewritten by recompute_last_prox_step_after_stepsize_change: the tuple mixes two
-      step sizes) → KEY_RECOMP_*;  PANOC eager_gradient_eval with a problem that uses the m-workspace of
-      eval_ψ_grad_ψ as scratch (`wmscratch`): ŷ, a ∇ψ(x̂) recomputed from it after an interrupted line search,
-      and the Ipopt / ApproxKKT ε computed from those → KEY_EAGER_YHAT.
+      step sizes) → KEY_RECOMP_*.
     Under a property that does not own the key the mismatch is counted and checking goes on; under the owner the
     first keyed mismatch is returned after all callbacks were checked (an un-keyed one at once).
     → None | str | (str, key)"""
@@ -363,9 +368,6 @@ def _consistency(flavor, op, cbs, *, pid=None, bump=lambda k, n=1: None, rewritt
         key = None
         if rw and flavor in ('panoc', 'zerofpr'):
             key = KEY_RECOMP_PANOC if flavor == 'panoc' else KEY_RECOMP_ZEROFPR
-        elif eager_wm and (field in ('yhat', 'gradhat') or (field == 'eps' and (
-                cname == 'Ipopt' or (cname in ('ApproxKKT', 'ApproxKKT2') and cb.get('_gradhat_bad'))))):
-            key = KEY_EAGER_YHAT
         full = f'callback {k} ({cb["status"]}): {msg}'
         if key is None:
             pending.insert(0, full)
@@ -461,7 +463,10 @@ def _consistency(flavor, op, cbs, *, pid=None, bump=lambda k, n=1: None, rewritt
             else:
                 bump('psihat_exact')
             yh = cb.get('yhat') or []
-            if len(yh) == Q.ex.m and Q.ex.m:
+            if eager_wm and cname != 'Ipopt' and Q.ex.m:
+                # by design: the callback's ŷ is the workspace of eval_ψ_grad_ψ (see the note at KEY_OWNER)
+                bump('yhat_eager_workspace_by_design')
+            elif len(yh) == Q.ex.m and Q.ex.m:
                 ybad = [j for j in range(Q.ex.m)
                         if not math.isfinite(yh[j]) or abs(Fr(yh[j]) - yh_ex[j]) > Fr(REL) * Myh[j]]
                 if ybad:
